@@ -415,6 +415,21 @@ def check_proto(mp, label):
             bad = _foreign_owner(model)
             if bad:
                 fails.append(("inconsistent-ir/node-output-owned-by-another-graph", f"{label}: {bad}"))
+            if isinstance(mp, onnx.ModelProto) and isinstance(model, ir.Model):
+                # every consumer is wired to the definition the scoping rule names (resolved on the proto, independently)
+                from vlib import wiring
+
+                try:
+                    bad = wiring.check(mp, model, dangling=True)
+                except _Timeout:
+                    raise
+                except Exception:
+                    bad = None  # the oracle does not apply to this malformed proto (e.g. duplicate function ids)
+                # a malformed proto may not map onto the IR graph by graph (duplicate attribute names, a graph stored under a
+                # non-graph attribute type, ...): then the oracle has nothing to say; only input wiring is judged
+                if bad and all(".input[" in b for b in bad):
+                    kind = "undefined-name-split" if "undefined name" in bad[0] else "scope"
+                    fails.append((f"inconsistent-ir/wiring-{kind}", f"{label}: {bad[0]}"[:400]))
             try:
                 p1 = ir.to_proto(model)
             except _Timeout:
